@@ -164,7 +164,9 @@ theorem history_refinement_fails_on_forged_root :
   exact absurd e (by decide)
 
 open Gkv.Machine Gkv.MachineR in
-/-- repeated reverts walk back one Flush at a time, to the empty store past the first one -/
+/-- repeated reverts walk back one Flush at a time, to the empty store past the first one
+    (under `RHistOK`, i.e. like `history_refinement_partial` only for histories in which no value
+    forges a root record: finding F17) -/
 theorem reverts_walk_back (cmpOf : Bytes → CmpKind) (ops : List ROp) (n : Nat) (hn : 0 < n)
     (h : RHistOK cmpOf (ops ++ List.replicate n .revert)) :
     absS (rrun cmpOf (ops ++ List.replicate n .revert))
@@ -172,8 +174,8 @@ theorem reverts_walk_back (cmpOf : Bytes → CmpKind) (ops : List ROp) (n : Nat)
   reverts_walk_back_partial cmpOf ops n hn h
 
 open Gkv.Machine Gkv.MachineR in
-/-- after any such history the file is truncated to end exactly at the root record of the flush on
-    top of the stack (or is empty), and re-opening it shows that flush -/
+/-- after any such history (again under `RHistOK`) the file is truncated to end exactly at the root
+    record of the flush on top of the stack (or is empty), and re-opening it shows that flush -/
 theorem file_agrees_after_history (cmpOf : Bytes → CmpKind) (ops : List ROp) (h : RHistOK cmpOf ops) :
     (∃ dc, openStore 0 (rrun cmpOf ops).file cmpOf
         = .ok ⟨some 0, (rrun cmpOf ops).file.length, dc, false⟩ ∧
